@@ -241,6 +241,36 @@ class WordRegions:
         return OK(outcome=(w, tuple(outs)), nontrivial=nt, evals=nev)
 
 
+def eval_many_runs(case):
+    """Synthetic tables with MANY runs of qualifying cycles (run lengths cycling through a pattern around the minimum), a
+    volt_amp column spanning ten orders of magnitude, 2 threshold vectors x min_n_cycles 2..5."""
+    from bycycle.burst import detect_bursts_cycles
+    from bcmc.props.C08 import RUN_PATTERNS
+    R, pi, fail = case
+    lens, gaps = RUN_PATTERNS[pi]
+    q = [False]
+    for r in range(R):
+        q += [True] * lens[r % len(lens)] + [False] * gaps[r % len(gaps)]
+    q += [True] * 6 + [False]
+    n = len(q)
+    nev = 0
+    for thr in THR_VECS:
+        rows = [profile_values('all' if ok else fail, thr) for ok in q]
+        df = pd.DataFrame(rows, columns=list(FEATS))
+        df['volt_amp'] = [10.0 ** ((i * 7) % 11 - 6) for i in range(n)]
+        feat = {f: df[f].tolist() for f in FEATS}
+        for m in (2, 3, 4, 5):
+            kw = dict(zip([f + '_threshold' for f in FEATS], thr))
+            exp, _ = ref_labels_cycles(feat, kw, m)
+            got = [bool(x) for x in detect_bursts_cycles(df.copy(), min_n_cycles=m, **kw)['is_burst'].to_numpy()]
+            nev += 1
+            if got != exp:
+                bad = [i for i in range(n) if got[i] != exp[i]]
+                return VIOL({'kind': 'labels-many-runs', 'pattern': pi, 'm': m}, '%d runs (pattern %s), min_n_cycles=%d: labels differ from the '
+                            'threshold-and-run reference from cycle %d on (%d cycles)' % (R, lens, m, bad[0], len(bad)), evals=nev)
+    return OK(outcome=(R, pi, fail), nontrivial=True, evals=nev)
+
+
 EP_THR = [dict(S.T0), dict(S.T1), dict(S.T0, min_n_cycles=1), dict(S.T1, min_n_cycles=2, amp_consistency_threshold=.1)]
 
 
@@ -289,6 +319,11 @@ def spaces(tier, seed):
         out.append(ProductSpace('words-W(5,5)-regions', S.word_dims(al, 5), WordRegions('quick'), bounds={'letters': al, 'moving': 1},
                                 describe='pipeline tables (both centrings) x region grid of each threshold x '
                                          'min_n_cycles 0..4'))
+    Rs = [3, 40] + list(range(124, 132)) + list(range(252, 260)) + [511, 512, 513, 1023, 1024, 1025] + ([] if tier == 'quick' else list(range(96, 124)) + [2047, 2048, 4096])
+    out.append(ProductSpace('many-runs', [Rs, [0, 1, 2, 4], ['below0', 'at2', 'nan1']], eval_many_runs,
+                            describe='synthetic tables with up to %d runs of qualifying cycles x 4 run-length patterns x 3 ways of failing, volt_amp over 10 decades' % Rs[-1]))
+    out.append(ProductSpace('words-giant-W(3,5)-regions', S.word_dims(['a', 'd', 'G'], 5), WordRegions('quick'),
+                            describe='words with giant cycles (artefacts 10^5 times larger than the rhythm): pipeline tables x region grids'))
     ep = [(c, E, r) for c in ('peak', 'trough') for E in (32, 16) for r in (0, 1)]
     out.append(ProductSpace('epoch-list-W(2,8)', [['a', 'd']] * 8 + [ep], eval_epoch_list,
                             describe='compute_features_2d(axis=None) with one option dict per epoch (epochs of 4 / 2 cycles): labels of every '
